@@ -16,5 +16,11 @@ for id in "$@"; do
   echo "$id exit=$code $(grep -c '^VIOLATION' "$out") violation line(s)"
   grep -h -A3 '"signature"' "$scratch"/replays/*.json 2>/dev/null | grep -E '"signature"|"detail"' | cut -c1-300 | head -${SHOW:-6}
   [ "$code" = 2 ] && tail -5 "$out"
+  if [ -n "${KEEP:-}" ] && [ "$code" = 1 ]; then   # keep the first replay as a regression case: KEEP=<dir> KEEPTAG=<tag>
+    mkdir -p "$KEEP"
+    for f in "$scratch"/replays/*.json; do
+      b="$(basename "$f" .json)"; cp "$f" "$KEEP/${b%-*}-${KEEPTAG:-mutant}.json"; break
+    done
+  fi
   rm -rf "$scratch/replays"
 done
